@@ -173,7 +173,7 @@ class Actor(threading.Thread):
         super().__init__(daemon=True)
         self.world, self.idx, self.program, self.src = world, idx, program, src
         self.repo = None
-        self.gate = "start"          # where the actor is blocked; None = running; "done" = finished
+        self.gate = None             # where the actor is blocked; None = running / not there yet; "done" = finished
         self.error = None
         self.results = []            # per command
         self.upto = -1
@@ -189,8 +189,10 @@ class Actor(threading.Thread):
         w = self.world
         with w.cv:
             self.gate = kind         # (before the capture: an actor waiting inside ensure_loaded is not loaded yet)
-            w.flush()
-            w.running = None
+            if kind != "start":
+                w.flush()
+            if w.running is self:    # (an actor arriving at its `start` gate never held the baton)
+                w.running = None
             w.cv.notify_all()
             while w.running is not self and not w.aborted:
                 w.cv.wait()
@@ -550,7 +552,13 @@ def run_schedule(case, choices, timeout=300):
     ok = True
     livelock = False
     with w.cv:
-        while True:
+        # every thread must have arrived at its `start` gate before the first baton is handed out (a thread
+        # that starts late on a loaded machine must not find somebody else already running)
+        while any(a.gate is None for a in w.actors):
+            if not w.cv.wait(timeout):
+                ok = False
+                break
+        while ok:
             # wait until nobody runs
             while w.running is not None:
                 if not w.cv.wait(timeout):
